@@ -116,14 +116,14 @@ struct Inst {
 	Probe*		ctx = nullptr;		// the probe the instance's callbacks see (a copy shares its original's context)
 };
 
-enum Op { OP_CONSTRUCT = 0, OP_UPDATE, OP_REACT, OP_QUERY, OP_IMMEDIATE, OP_RESET, OP_EXIT, OP_ENTER, OP_DESTROY, OP_SAVE, OP_LOAD, OP_REPLAY, OP_REPLAY_ENTER, OP_PLANEDIT, OP_EXTSTATUS, OP_COPY, OP_REACT2, OP_COUNT };
+enum Op { OP_CONSTRUCT = 0, OP_UPDATE, OP_REACT, OP_QUERY, OP_IMMEDIATE, OP_RESET, OP_EXIT, OP_ENTER, OP_DESTROY, OP_SAVE, OP_LOAD, OP_REPLAY, OP_REPLAY_ENTER, OP_PLANEDIT, OP_EXTSTATUS, OP_COPY, OP_REACT2, OP_OVERLONG, OP_COUNT };
 
 struct Driver {
 	Log log;
 	int idCounter = 1;
 	long steps = 1000; uint64_t seed = 1;
 	Knobs knobs;
-	int wUpdate = 10, wReact = 3, wQuery = 1, wImmediate = 2, wReset = 1, wExitEnter = 1, wSaveLoad = 0, wPlanEdit = 0, wExtStatus = 0, wRecreate = 0;
+	int wUpdate = 10, wReact = 3, wQuery = 1, wImmediate = 2, wReset = 1, wExitEnter = 1, wSaveLoad = 0, wPlanEdit = 0, wExtStatus = 0, wRecreate = 0, wOverlong = 0;
 	int replica = 0;		// keep instance 2 in step with instance 0 through replayTransitions
 	int useLogger = 1, verboseMethods = 0;
 	int fillByte = -1;		// pre-fill of the instance storage: -1 none, 0..255 byte, 256 pseudo-random noise
@@ -299,7 +299,7 @@ int main(int argc, char** argv) {
 		else if (key == "threads") threads = (int)v;
 		KN(pIssue); KN(pGuardCancel); KN(pGuardIssue); KN(pConsume); KN(pSucceed); KN(pFail); KN(pHeadStatus); KN(pPropagate); KN(pPlanInCb);
 		KN(kinds); KN(pNoPayload); KN(structDump); KN(logAnswers); KN(planDump); KN(maxBatch); KN(wfEvery); KN(palette); KN(zeroUtil); KN(pendq);
-		DR(wUpdate); DR(wReact); DR(wQuery); DR(wImmediate); DR(wReset); DR(wExitEnter); DR(wSaveLoad); DR(wPlanEdit); DR(wExtStatus); DR(wRecreate);
+		DR(wUpdate); DR(wReact); DR(wQuery); DR(wImmediate); DR(wReset); DR(wExitEnter); DR(wSaveLoad); DR(wPlanEdit); DR(wExtStatus); DR(wRecreate); DR(wOverlong);
 		DR(replica); DR(useLogger); DR(verboseMethods); DR(fillByte); DR(addrOffset); DR(copies);
 		else { fprintf(stderr, "unknown key %s\n", key.c_str()); return 2; }
 	}
